@@ -46,7 +46,7 @@ def run_seed(seed_dir):
     d = tempfile.mkdtemp(prefix='seedrun.', dir='/tmp')
     res = {}
     try:
-        subprocess.run('cp -r /repo %s/repo && rm -rf %s/repo/.git && cd %s/repo && git init -q . && git add -A >/dev/null 2>&1 '
+        subprocess.run('cp -r ' + os.environ.get('CGV_REPO_SRC', '/repo').rstrip('/') + ' %s/repo && rm -rf %s/repo/.git && cd %s/repo && git init -q . && git add -A >/dev/null 2>&1 '
                        '&& git -c user.email=x@y -c user.name=x commit -qm base >/dev/null 2>&1' % (d, d, d), shell=True, check=True)
         subprocess.run('rsync -a --exclude .git --exclude .work --exclude replays %s/ %s/verif/' % (os.environ.get('CGV_VERIF_SRC', '/verif').rstrip('/'), d), shell=True, check=True)
         ap = subprocess.run('cd %s/repo && git apply %s' % (d, patch), shell=True, capture_output=True, text=True)
